@@ -1,5 +1,6 @@
 pub mod c01;
 pub mod c02;
+pub mod c03;
 pub mod c04;
 pub mod c05;
 pub mod c06;
@@ -14,6 +15,7 @@ pub mod c14;
 pub mod c15;
 pub mod c16;
 pub mod c17;
+pub mod c18;
 pub mod c19;
 pub mod c20;
 
@@ -24,6 +26,7 @@ pub fn run(p: &Params) -> Report {
     match p.property.as_str() {
         "C01" => c01::run(p),
         "C02" => c02::run(p),
+        "C03" => c03::run(p),
         "C04" => c04::run(p),
         "C05" => c05::run(p),
         "C06" => c06::run(p),
@@ -38,6 +41,7 @@ pub fn run(p: &Params) -> Report {
         "C15" => c15::run(p),
         "C16" => c16::run(p),
         "C17" => c17::run(p),
+        "C18" => c18::run(p),
         "C19" => c19::run(p),
         "C20" => c20::run(p),
         other => {
